@@ -332,9 +332,23 @@ def run_lines(exe, lines, shards=NCPU, timeout=1800, min_per_shard=64):
             o = out.decode("utf-8", "replace").split("\n")
             if o and o[-1] == "":
                 o.pop()
-            if len(o) != len(chunk):
-                # the process died (abort / stack overflow): mark the rest
-                o = o + ["CRASH rc=%s %s" % (p.returncode, err.decode("utf-8", "replace")[-200:].replace("\n", " "))] * (len(chunk) - len(o))
+            restarts = 0
+            while len(o) < len(chunk) and restarts < 50:
+                # the process died (abort / stack overflow) on line len(o): mark that line, restart on the rest
+                o.append("CRASH rc=%s %s" % (p.returncode, err.decode("utf-8", "replace")[-200:].replace("\n", " ")))
+                rest = chunk[len(o):]
+                if not rest:
+                    break
+                restarts += 1
+                p2 = subprocess.Popen([exe], stdin=subprocess.PIPE, stdout=subprocess.PIPE, stderr=subprocess.PIPE, env=ENV)
+                out2, err = p2.communicate(("\n".join(rest) + "\n").encode(), timeout=timeout)
+                p = p2
+                o2 = out2.decode("utf-8", "replace").split("\n")
+                if o2 and o2[-1] == "":
+                    o2.pop()
+                o += o2
+            if len(o) < len(chunk):
+                o += ["CRASH (too many restarts)"] * (len(chunk) - len(o))
             results[k] = o
         except subprocess.TimeoutExpired:
             p.kill()
@@ -440,7 +454,7 @@ def check(pid, tier):
 
     # 3/4. build model and implementation
     okm, msgm = build_model_run()
-    profiles = ["debug"] if tier == "quick" else ["debug", "release"]
+    profiles = getattr(mod, "PROFILES_" + tier.upper(), ["debug"] if tier == "quick" else ["debug", "release"])
     okh = True
     msgh = ""
     for prof in profiles:
